@@ -323,7 +323,7 @@ static int ex_lineno(char **num)
 static int ex_region(char *loc, int *beg, int *end)
 {
 	int naddr = 0;
-	if (xrow < 0 || xrow > lbuf_len(xb))	/* stale after undo or an empty insertion */
+	if (xrow < 0 || xrow >= lbuf_len(xb))	/* stale after undo, a filter or an empty insertion */
 		xrow = MAX(0, MIN(xrow, lbuf_len(xb) - 1));
 	if (!strcmp("%", loc)) {
 		*beg = 0;
